@@ -20,7 +20,10 @@ Print Assumptions C15_compatible_spec.
    overwrites with or without unit, physical-unit relabelling, interleaved consultations), a
    consultation of a strict frame with at least one row either refuses or finds every column with a
    unit compatible with its dtype - including when validation was skipped because the dtypes equal
-   the remembered snapshot. *)
+   the remembered snapshot.  The step alphabet's unit setter (SRelabel) relabels between physical
+   units only: setting or removing 'text' / 'onoff' through the setter is a pure metadata edit that
+   the statement of C15 puts outside the guarantee (the setter as the code has it is relabel_any in
+   Model/Frame.v, used by the correspondence check, not by this theorem). *)
 Theorem C15_invariant :
   forall f0 ss f',
     J f0 -> f_strict f0 = true ->
